@@ -157,8 +157,17 @@ func zipContent(id int) []byte {
 	case -1:
 		return []byte(zipDecoyContent)
 	}
+	if id%3 == 0 {
+		// content that starts like a file of a well-known format (packed, picture, document, executable, script ...)
+		return append([]byte(zipMagics[(id/3)%len(zipMagics)]), []byte(fmt.Sprintf(" content #%d\n", id))...)
+	}
 	return []byte(fmt.Sprintf("content #%d\n", id))
 }
+
+// the first bytes of files in well-known formats: what a file IS must not matter to a lossless round trip
+var zipMagics = []string{"\x1f\x8b\x08\x00", "BZh91AY&SY", "\xfd7zXZ\x00", "\x28\xb5\x2f\xfd", "\x89PNG\r\n\x1a\n", "\xff\xd8\xff\xe0",
+	"7z\xbc\xaf\x27\x1c", "PK\x03\x04", "PK\x05\x06", "%PDF-1.7", "\x7fELF", "MZ\x90\x00", "#!/bin/sh\n", "\xef\xbb\xbf", "GIF89a", "RIFF\x00\x00\x00\x00WEBP",
+	"Rar!\x1a\x07\x00", "\x04\x22\x4d\x18", "\x00\x00\x00\x18ftypmp42", "OggS", "fLaC", "ID3\x03", "\x1f\x9d", "\x1f\xa0", "LZIP", "\xca\xfe\xba\xbe", "\x00\x00\x00\x00"}
 
 // ---------------------------------------------------------------- decoding helpers
 
@@ -792,6 +801,9 @@ func zipRandContent(r *rand.Rand) []byte {
 		}
 	default:
 		r.Read(b[:n/2])
+	}
+	if r.Intn(3) == 0 {
+		copy(b, zipMagics[r.Intn(len(zipMagics))])
 	}
 	return b
 }
